@@ -285,10 +285,10 @@ private:
   }
 
   void destroy_buckets() noexcept {
+    LIBCUCKOO_VERIF_EVENT(EV_BUCKETS_FREE, this, is_deallocated() ? 1 : 0);
     if (is_deallocated()) {
       return;
     }
-    LIBCUCKOO_VERIF_EVENT(EV_BUCKETS_FREE, this, 0);
     // The bucket default constructor is nothrow, so we don't have to
     // worry about dealing with exceptions when constructing all the
     // elements.
